@@ -329,8 +329,8 @@ func streamCase(c *core.Ctx, idx int, r *core.Rand, sigs map[uint64]struct{}, fi
 			ah := 0
 			if huge < 1 && c.Thorough() {
 				ah = 3 // 1, 5 or 12 MiB
-			} else if huge < 1 && idx%10 == 0 {
-				ah = 2 // quick: 1 or 5 MiB in a tenth of the cases
+			} else if huge < 1 && idx%20 == 0 {
+				ah = 1 // quick: one 1 MiB message in a twentieth of the cases (the receiver re-scans its buffer per segment: quadratic cost under -race)
 			}
 			sz := zs.pick(r, ah)
 			if sz >= 1<<20 {
